@@ -3,7 +3,10 @@
 package main
 
 import (
+	"errors"
 	"fmt"
+	"io"
+	"sync"
 	"time"
 
 	"github.com/SAP/go-dblib/vrt"
@@ -161,6 +164,67 @@ func timerSelfTest() int {
 		}
 	})
 	expect(fmt.Sprintf("fan-in over a rendezvous channel (%d schedules, %d violations)", st.Execs, st.Violations), st.Violations == 0 && st.Execs > 1)
+	// io.Pipe: the same program over the real pipe (free running) and over the shim (every schedule)
+	type rw struct {
+		r interface {
+			io.Reader
+			CloseWithError(error) error
+		}
+		w interface {
+			io.Writer
+			CloseWithError(error) error
+		}
+	}
+	errBoom := errors.New("boom")
+	pipeProg := func(mk func() rw, spawn func(func()), join func(), variant int) string {
+		p := mk()
+		var wres string
+		spawn(func() {
+			n, err := p.w.Write([]byte("hello"))
+			wres = fmt.Sprintf("w1=%d,%v", n, err)
+			if variant == 0 {
+				p.w.CloseWithError(errBoom)
+				n, err = p.w.Write([]byte("x"))
+				wres += fmt.Sprintf(" w2=%d,%v", n, err)
+			}
+		})
+		var got []byte
+		var rerr error
+		buf := make([]byte, 2)
+		for i := 0; ; i++ {
+			if variant == 1 && i == 2 {
+				p.r.CloseWithError(nil) // the writer is left with one byte unread
+				_, rerr = p.r.Read(buf)
+				break
+			}
+			n, err := p.r.Read(buf)
+			got = append(got, buf[:n]...)
+			if err != nil {
+				rerr = err
+				break
+			}
+		}
+		join()
+		return fmt.Sprintf("read %q err=%v; %s", got, rerr, wres)
+	}
+	for variant := 0; variant < 2; variant++ {
+		var wg sync.WaitGroup
+		want := pipeProg(func() rw { r, w := io.Pipe(); return rw{r, w} }, func(f func()) { wg.Add(1); go func() { defer wg.Done(); f() }() }, wg.Wait, variant)
+		gotOut := ""
+		st = vrt.Explore(vrt.ExploreCfg{Base: vrt.Config{Preempt: true}, Bound: -1, Check: func(x *vrt.Exec) (string, string) {
+			if x.Failure != nil {
+				return "failure", x.Failure.String()
+			}
+			if gotOut != want {
+				return "differs", gotOut
+			}
+			return "", ""
+		}}, func() {
+			var vwg vsync.WaitGroup
+			gotOut = pipeProg(func() rw { r, w := vrt.IOPipe(); return rw{r, w} }, func(f func()) { vwg.Add(1); vrt.GoNamed("writer", func() { defer vwg.Done(); f() }) }, vwg.Wait, variant)
+		})
+		expect(fmt.Sprintf("io.Pipe variant %d: real %q (%d schedules, %d violations)", variant, want, st.Execs, st.Violations), st.Violations == 0 && st.Execs > 1)
+	}
 	fmt.Printf("shimconf: virtual timers, ticker, AfterFunc, rendezvous channel, condition variable: %d mismatches\n", bad)
 	return bad
 }
